@@ -17,6 +17,8 @@ def wfA : Expr → Bool
   | .incr _ _ e => e.isLValue && wfA e
   | .field e => wfA e
   | .index _ i => wfA i
+  | .getline c t f =>
+    (c == .none || wfA c) && (t == .none || (t.isLValue && wfA t)) && (f == .none || wfA f) && (c == .none || f == .none)
   | _ => false
 
 /-- trees of the whole expression language of the model (the property's quantifier): additionally pre/post `++ --`,
@@ -64,7 +66,13 @@ theorem canon_mono (pc : Bool) (e : Expr) (k j : Nat) (h : canon pc k e = true) 
       exact ⟨⟨by omega, h.1.2⟩, h.2⟩
   | field e => simp only [canon, Bool.and_eq_true, decide_eq_true_eq] at h ⊢; exact ⟨by omega, h.2⟩
   | index a i => simp only [canon, Bool.and_eq_true, decide_eq_true_eq] at h ⊢; exact ⟨by omega, h.2⟩
-  | getline c t f => simp [canon] at h
+  | getline c t f =>
+    by_cases hcn : c = .none
+    · subst hcn
+      simp only [canon, beq_self_eq_true, if_true, Bool.and_eq_true, decide_eq_true_eq] at h ⊢
+      exact ⟨h.1, by omega, h.2.2⟩
+    · simp only [canon, beq_iff_eq, hcn, if_false, Bool.and_eq_true, decide_eq_true_eq] at h ⊢
+      exact ⟨h.1, ⟨⟨h.2.1.1.1, by omega⟩, h.2.1.2⟩, h.2.2⟩
 
 theorem one_le_prec (e : Expr) : 1 ≤ e.prec := by
   cases e <;> simp [Expr.prec]
@@ -97,6 +105,41 @@ theorem fit_ok (e : Expr) (ih : MinOk e) (pc : Bool) (q : Nat) (hq : q ≤ 15) :
       exact one_le_prec e
     · simp only [strip]; exact (ih false).2
 
+/-- at concatenation-operand level and above a canonical tree does not start with `getline` -/
+theorem hd_ne_getline (e : Expr) : ∀ (pc : Bool) (k : Nat), canon pc k e = true → 8 ≤ k → hd (render e) ≠ .getline := by
+  induction e with
+  | num i => intros; simp [render, hd]
+  | var i => intros; simp [render, hd]
+  | str i => intros; simp [render, hd]
+  | group e _ => intros; simp [render, hd]
+  | unary op e _ => intro pc k _ _; cases op <;> simp [render, hd, uopTok]
+  | binary op l r ihl _ =>
+    intro pc k hc hk
+    simp only [canon, Bool.and_eq_true, decide_eq_true_eq] at hc
+    have hl : 8 ≤ op.lhs := by
+      have := hc.1.1.1.2
+      cases op <;> simp [BOp.lhs, BOp.assoc, BOp.prec] at this ⊢ <;> omega
+    have h1 := ihl pc _ hc.1.1.2 hl
+    obtain ⟨t, ts, hr, _⟩ := render_hd l pc _ hc.1.1.2
+    simp only [render, hr, List.cons_append, hd] at h1 ⊢
+    exact h1
+  | cond c t f _ _ _ => intro pc k hc hk; simp only [canon, Bool.and_eq_true, decide_eq_true_eq] at hc; omega
+  | assign op l r _ _ => intro pc k hc hk; simp only [canon, Bool.and_eq_true, decide_eq_true_eq] at hc; omega
+  | inArr e a _ => intro pc k hc hk; simp only [canon, Bool.and_eq_true, decide_eq_true_eq] at hc; omega
+  | incr p d e _ =>
+    intro pc k hc hk
+    cases p
+    · cases e <;> simp [canon] at hc <;> simp [render, hd]
+    · cases d <;> simp [render, hd]
+  | field e _ => intros; simp [render, hd]
+  | index a i _ => intros; simp [render, hd]
+  | none => intro pc k hc; simp [canon] at hc
+  | getline c t f _ _ _ =>
+    intro pc k hc hk
+    simp only [canon, Bool.and_eq_true] at hc
+    have h2 := hc.2
+    split at h2 <;> simp only [Bool.and_eq_true, decide_eq_true_eq] at h2 <;> omega
+
 theorem closed_min (e : Expr) (hw : wfA e = true) (hnf : isField e = false) (hp : 14 ≤ e.prec) :
     closed (addMin false e) = true := by
   cases e with
@@ -113,7 +156,7 @@ theorem closed_min (e : Expr) (hw : wfA e = true) (hnf : isField e = false) (hp 
   | incr p d e => simp [Expr.prec] at hp
   | none => simp [wfA] at hw
   | group e => simp [wfA] at hw
-  | getline c t f => simp [wfA] at hw
+  | getline c t f => simp [Expr.prec] at hp
 
 /-- the minimal rendering of an lvalue is an lvalue that `primary()` reads -/
 theorem lv_min (l : Expr) (hlv : l.isLValue = true) (ih : MinOk l) :
@@ -184,8 +227,10 @@ theorem min_ok (e : Expr) (hwf : wfA e = true) : MinOk e := by
           · have hss : signStart (hd (render (fitMin pc op.rhs r))) = false := by
               simp only [hc, Bool.true_and] at hcs; simpa using hcs
             have hh := (hd_render_append _ pc op.rhs [] hr.1).2
+            have hop : op = BOp.concat := by simpa using hc
+            have hg := hd_ne_getline _ pc op.rhs hr.1 (by rw [hop]; simp [BOp.rhs, BOp.assoc, BOp.prec])
             have : startOk (hd (render (fitMin pc op.rhs r))) = true := by
-              revert hh hss
+              revert hh hss hg
               cases hd (render (fitMin pc op.rhs r)) <;> simp [isHead, signStart, startOk, concatStart]
             simp [this]
           · simp only [Bool.not_eq_true] at hc; simp [bne, hc]
@@ -325,7 +370,73 @@ theorem min_ok (e : Expr) (hwf : wfA e = true) : MinOk e := by
     simp only [canon, Bool.and_eq_true, decide_eq_true_eq]
     refine ⟨hk, hi.1 1 ?_⟩
     simp only [topLevel, Bool.false_and, Bool.false_eq_true, if_false]; exact one_le_prec i
-  | getline c t f _ _ _ => simp [wfA] at hwf
+  | getline c t f ihc iht ihf =>
+    intro pc
+    simp only [wfA, Bool.and_eq_true, Bool.or_eq_true, beq_iff_eq] at hwf
+    obtain ⟨⟨⟨hwc, hwt⟩, hwf'⟩, hcf⟩ := hwf
+    -- the three parts
+    have hT : (addMin false t == Expr.none || ((addMin false t).isLValue && canon false 14 (addMin false t))) = true ∧
+        strip (addMin false t) = t := by
+      rcases hwt with rfl | hwt
+      · simp [addMin, strip]
+      · have := lv_min t hwt.1 (iht hwt.2)
+        simp [this.1, this.2.1, this.2.2]
+    have hF : (fitMin false 14 f == Expr.none || canon false 14 (fitMin false 14 f)) = true ∧ strip (fitMin false 14 f) = f ∧
+        (f = .none → fitMin false 14 f = .none) := by
+      rcases hwf' with rfl | hwf'
+      · simp [fitMin, addMin, strip, Expr.prec]
+      · have := fit_ok f (ihf hwf') false 14 (by omega)
+        refine ⟨by simp [this.1], this.2, ?_⟩
+        intro h; subst h; simp [wfA] at hwf'
+    have hC : strip (fitMin false 8 c) = c ∧ (c = .none → fitMin false 8 c = .none) ∧
+        (c ≠ .none → fitMin false 8 c ≠ .none ∧ canon false 3 (fitMin false 8 c) = true) := by
+      rcases hwc with rfl | hwc
+      · simp [fitMin, addMin, strip, Expr.prec]
+      · have := fit_ok c (ihc hwc) false 8 (by omega)
+        refine ⟨this.2, ?_, ?_⟩
+        · intro h; subst h; simp [wfA] at hwc
+        · intro hne
+          refine ⟨?_, canon_mono false _ 8 3 this.1 (by omega)⟩
+          intro h; rw [h] at this; exact hne (by simpa [strip] using this.2.symm)
+    have hstrip : strip (Expr.getline (fitMin false 8 c) (addMin false t) (fitMin false 14 f)) = .getline c t f := by
+      simp only [strip, hC.1, hT.2, hF.2.1]
+    have hG : ∀ k, k ≤ 1 → canon false k (Expr.getline (fitMin false 8 c) (addMin false t) (fitMin false 14 f)) = true := by
+      intro k hk
+      by_cases hcn : c = .none
+      · simp only [canon, hC.2.1 hcn, beq_self_eq_true, if_true, Bool.and_eq_true, decide_eq_true_eq]
+        exact ⟨hT.1, by omega, hF.1⟩
+      · have hfn : f = .none := by
+          rcases hcf with h | h
+          · exact absurd h hcn
+          · exact h
+        have := hC.2.2 hcn
+        simp only [canon, beq_iff_eq, this.1, if_false, Bool.and_eq_true, decide_eq_true_eq, hF.2.2 hfn, Bool.not_false]
+        exact ⟨hT.1, ⟨⟨trivial, hk⟩, trivial⟩, this.2⟩
+    rw [addMin]
+    by_cases hsp : (pc && (c != Expr.none)) = true
+    · simp only [hsp, if_true]
+      refine ⟨?_, hstrip⟩
+      intro k hk
+      have : (pc && printSpecial (.getline c t f)) = true := by simpa [printSpecial] using hsp
+      simp only [topLevel, this, if_true] at hk
+      have hg1 := hG 1 (Nat.le_refl _)
+      simp only [canon, Bool.and_eq_true, decide_eq_true_eq] at hg1 ⊢
+      exact ⟨hk, hg1⟩
+    · simp only [hsp, Bool.false_eq_true, if_false]
+      refine ⟨?_, hstrip⟩
+      intro k hk
+      have hns : (pc && printSpecial (.getline c t f)) = false := by simpa [printSpecial] using hsp
+      simp only [topLevel, hns, Bool.false_eq_true, if_false, Expr.prec] at hk
+      -- without a command the form does not depend on the context
+      by_cases hcn : c = .none
+      · simp only [canon, hC.2.1 hcn, beq_self_eq_true, if_true, Bool.and_eq_true, decide_eq_true_eq]
+        exact ⟨hT.1, by omega, hF.1⟩
+      · have hpc : pc = false := by
+          cases pc
+          · rfl
+          · simp [hcn] at hsp
+        subst hpc
+        exact hG k hk
 
 theorem grp_start (r : Expr) (hw : wfA r = true) : startOk (hd (render (grp r))) = true := by
   rw [grp]
@@ -463,7 +574,45 @@ theorem full_ok (e : Expr) (hwf : wfA e = true) : FullOk e := by
       rw [addFull]; simp only [canon, Bool.and_eq_true, decide_eq_true_eq]; exact ⟨by omega, he.1 false 1 (by omega)⟩
     have h2 : strip (addFull (.index a i)) = .index a i := by rw [addFull]; simp only [strip, he.2]
     exact ⟨⟨h1, h2⟩, grp_ok _ h1 h2 (by intro h; simp [isAtom] at h) (by intro h; simp [isAtom] at h)⟩
-  | getline c t f _ _ _ => simp [wfA] at hwf
+  | getline c t f ihc iht ihf =>
+    simp only [wfA, Bool.and_eq_true, Bool.or_eq_true, beq_iff_eq] at hwf
+    obtain ⟨⟨⟨hwc, hwt⟩, hwf'⟩, hcf⟩ := hwf
+    have hT : (addFull t == Expr.none || ((addFull t).isLValue && canon false 14 (addFull t))) = true ∧ strip (addFull t) = t := by
+      rcases hwt with rfl | hwt
+      · simp [addFull, strip]
+      · have h1 := (iht hwt.2).1
+        have := lv_full t hwt.1 h1.1
+        simp [this.1, this.2, h1.2]
+    have hF : (grp f == Expr.none || canon false 14 (grp f)) = true ∧ strip (grp f) = f ∧ (f = .none → grp f = .none) := by
+      rcases hwf' with rfl | hwf'
+      · simp [grp, isAtom, strip]
+      · have := (ihf hwf').2
+        refine ⟨by simp [this.1 false 14 (by omega)], this.2, ?_⟩
+        intro h; subst h; simp [wfA] at hwf'
+    have hC : strip (grp c) = c ∧ (c = .none → grp c = .none) ∧ (c ≠ .none → grp c ≠ .none ∧ canon false 3 (grp c) = true) := by
+      rcases hwc with rfl | hwc
+      · simp [grp, isAtom, strip]
+      · have := (ihc hwc).2
+        refine ⟨this.2, ?_, ?_⟩
+        · intro h; subst h; simp [wfA] at hwc
+        · intro hne
+          refine ⟨?_, this.1 false 3 (by omega)⟩
+          intro h; rw [h] at this; exact hne (by simpa [strip] using this.2.symm)
+    have h1 : canon false 1 (addFull (.getline c t f)) = true := by
+      rw [addFull]
+      by_cases hcn : c = .none
+      · simp only [canon, hC.2.1 hcn, beq_self_eq_true, if_true, Bool.and_eq_true, decide_eq_true_eq]
+        exact ⟨hT.1, by omega, hF.1⟩
+      · have hfn : f = .none := by
+          rcases hcf with h | h
+          · exact absurd h hcn
+          · exact h
+        have := hC.2.2 hcn
+        simp only [canon, beq_iff_eq, this.1, if_false, Bool.and_eq_true, decide_eq_true_eq, hF.2.2 hfn, Bool.not_false]
+        exact ⟨hT.1, ⟨⟨trivial, Nat.le_refl _⟩, trivial⟩, this.2⟩
+    have h2 : strip (addFull (.getline c t f)) = .getline c t f := by
+      rw [addFull]; simp only [strip, hC.1, hT.2, hF.2.1]
+    exact ⟨⟨h1, h2⟩, grp_ok _ h1 h2 (by intro h; simp [isAtom] at h) (by intro h; simp [isAtom] at h)⟩
 
 /-! ### the concrete fuel of `parseExpr` suffices -/
 
@@ -539,7 +688,39 @@ theorem depth_lt_render (e : Expr) : ∀ pc k, canon pc k e = true → depth e <
     simp only [canon, Bool.and_eq_true] at h
     have := ih _ _ h.2
     simp only [depth, render, List.length_append, List.length_cons, List.length_nil]; omega
-  | getline c t f _ _ _ => intro pc k h; simp [canon] at h
+  | getline c t f ihc iht ihf =>
+    intro pc k h
+    simp only [canon, Bool.and_eq_true, Bool.or_eq_true, beq_iff_eq] at h
+    have hL : (render (.getline c t f)).length =
+        (if c = .none then 0 else (render c).length + 1) + 1 + (render t).length + (if f = .none then 0 else (render f).length + 1) := by
+      simp only [render]
+      split <;> split <;> simp [List.length_append] <;> omega
+    have hdt : depth t ≤ (render t).length := by
+      rcases h.1 with rfl | ht
+      · simp [depth, render]
+      · exact Nat.le_of_lt (iht _ _ ht.2)
+    have hdc : depth c ≤ (if c = .none then 0 else (render c).length + 1) := by
+      by_cases hcn : c = .none
+      · subst hcn; simp [depth]
+      · have h2 := h.2
+        simp only [hcn, if_false, Bool.and_eq_true] at h2 ⊢
+        have := ihc _ _ h2.2; omega
+    have hdf : (if f = Expr.none then 0 else depth f + 1) ≤ (if f = .none then 0 else (render f).length + 1) := by
+      by_cases hfn : f = .none
+      · simp [hfn]
+      · simp only [hfn, if_false]
+        have h2 := h.2
+        by_cases hcn : c = .none
+        · simp only [hcn, if_true, Bool.and_eq_true, Bool.or_eq_true, beq_iff_eq, hfn, false_or] at h2
+          have := ihf _ _ h2.2; omega
+        · simp only [hcn, if_false, Bool.and_eq_true, beq_iff_eq] at h2
+          exact absurd h2.1.1.1 hfn
+    rw [hL]
+    simp only [depth]
+    have h3 : max (depth c) (max (depth t) (if f = Expr.none then 0 else depth f + 1)) ≤
+        (if c = .none then 0 else (render c).length + 1) + (render t).length + (if f = .none then 0 else (render f).length + 1) := by
+      apply Nat.max_le.mpr; refine ⟨by omega, Nat.max_le.mpr ⟨by omega, by omega⟩⟩
+    omega
 
 /-- `parseExpr` (fuel = number of tokens) reads a canonical tree back, whatever follows it (follow-set condition) -/
 theorem parseExpr_canon (pc : Bool) (c : Expr) (rest : List Tok) (hc : canon pc 1 c = true) (hf : cl pc (hd rest) < 1) :
@@ -582,6 +763,22 @@ theorem parsePrint_redirect (a d : Expr) (t : Tok) (rest : List Tok) (ha : canon
 end GoawkModel.C04
 
 namespace GoawkModel.C04
+
+theorem stageA_false (op : BOp) : op.stageA false = true := by cases op <;> rfl
+
+/-- `wfA` now is the whole expression language of the model -/
+theorem wfFull_wfA (e : Expr) (h : wfFull e = true) : wfA e = true := by
+  induction e with
+  | binary op l r ihl ihr =>
+    simp only [wfFull, Bool.and_eq_true] at h
+    simp [wfA, stageA_false, ihl h.1, ihr h.2]
+  | getline c t f ihc iht ihf =>
+    simp only [wfFull, wfA, Bool.and_eq_true, Bool.or_eq_true, beq_iff_eq] at h ⊢
+    refine ⟨⟨⟨?_, ?_⟩, ?_⟩, h.2⟩
+    · exact h.1.1.1.imp id ihc
+    · exact h.1.1.2.imp id (fun x => ⟨x.1, iht x.2⟩)
+    · exact h.1.2.imp id ihf
+  | _ => simp_all [wfFull, wfA]
 
 theorem optLValue_none (b : Back) (rest : List Tok) (h : cl false (hd rest) = 0) : optLValue b rest = .ok Option.none := by
   cases rest with
